@@ -209,7 +209,9 @@ func (zzMapping) MappingHeaderStatusCode(ctx context.Context, h api.HeaderMap) (
 	if _, ok := h.Get("status"); ok {
 		return 200, nil
 	}
-	return 0, protocol.ErrNoMapping
+	// no status in the frame: the HTTP family's mapping (protocol.GetStatusCodeMapping) reads the
+	// status variable - which a locally generated reply also sets
+	return protocol.GetStatusCodeMapping{}.MappingHeaderStatusCode(ctx, h)
 }
 
 type zzSF struct{ types.ProtocolStreamFactory }
@@ -433,6 +435,7 @@ type zzPFilter struct {
 	log     *[]int
 	verdict api.StreamFilterStatus // returned on the first invocation; later invocations continue
 	hijack  bool                   // send a local reply before returning stop
+	code    int                    // status of that local reply
 	handler api.StreamReceiverFilterHandler
 	calls   int
 }
@@ -445,7 +448,7 @@ func (f *zzPFilter) OnReceive(ctx context.Context, h api.HeaderMap, b api.IoBuff
 		return api.StreamFilterContinue
 	}
 	if f.hijack {
-		f.handler.SendHijackReply(403, h)
+		f.handler.SendHijackReply(f.code, h)
 	}
 	return f.verdict
 }
@@ -475,7 +478,15 @@ func VerifC14_ProxyFilters() {
 	nf := 1 + verif.Choose("filters", verif.Param("pfilters", 2, 3))
 	special := verif.Choose("special", nf) // which filter gets the non-continue verdict
 	kind := verif.Choose("kind", 5)        // 0 continue, 1 stop+hijack, 2 termination, 3 re-match, 4 re-choose
-	ds, sender, pool, _, ctx := zzMachine(0, false)
+	// the route may allow retries, and the filter's own reply may carry a status the retry policy
+	// would retry if it came from an upstream (503) - it must still be the one and only response
+	retryOn := verif.Choose("route_retry_on", 2) == 1
+	denyCode := []int{403, 503}[verif.Choose("deny_status", 2)]
+	nRetries := uint32(0)
+	if retryOn {
+		nRetries = 1
+	}
+	ds, sender, pool, _, ctx := zzMachine(nRetries, retryOn)
 	pool.scripted = true
 	var log []int
 	var phases []api.ReceiverFilterPhase
@@ -493,7 +504,7 @@ func VerifC14_ProxyFilters() {
 			}
 			switch kind {
 			case 1:
-				f.verdict, f.hijack = api.StreamFilterStop, true
+				f.verdict, f.hijack, f.code = api.StreamFilterStop, true, denyCode
 			case 2:
 				f.verdict = api.StreamFiltertermination
 			case 3:
